@@ -37,6 +37,15 @@ def panic_rule(ctx, chk, prop, rule_name, roots, cut=None, floor=1):
                 if s.status == "guarded" and len(r.samples) < 3:
                     r.samples.append({"site": sid, "at": "%s:%d" % (s.file, s.line), "status": s.status, "why": s.reason})
                 continue
+            if sid in safe and not _requires_ok(fn, s, safe[sid]):
+                r.instance(None, ok=False)
+                r.classify("allowlist-precondition-lost")
+                path = G.fmt_path(seen, fn.def_)
+                r.violate("%s|%s|%s|precondition" % (prop, rule_name.split("-")[0], sid),
+                          "potential panic: %s (%s) in %s was allowlisted because a dominating test (%s) protects it, and that test no longer dominates the site; reachable: %s" % (
+                              s.what, s.producer, fn.def_, safe[sid]["requires"]["dominating_test"], path),
+                          s.file, s.line, fn.def_, {"site": sid, "allowlist_reason": safe[sid]["reason"]})
+                continue
             if sid in safe:
                 used_safe.add(sid)
                 r.instance(None, ok=True)
@@ -53,6 +62,29 @@ def panic_rule(ctx, chk, prop, rule_name, roots, cut=None, floor=1):
                       s.file, s.line, fn.def_, {"site": sid, "kind": s.kind, "producer": s.producer, "call_path": path, "needs": s.extra})
     r.note("functions analysed: %d; allowlist entries used: %d" % (nfn, len(used_safe)))
     return r, seen, inv
+
+
+def _requires_ok(fn, site, entry):
+    """machine-checked precondition of an allowlist entry: some switch whose discriminant mentions the given
+    callee/operator (regex over the value expression) has an edge that dominates the site"""
+    req = entry.get("requires")
+    if not req:
+        return True
+    import re
+    pat = re.compile(req["dominating_test"])
+    cfg = cfg_of(fn)
+    du = du_of(fn)
+    for sb in cfg.live_blocks():
+        st = cfg.blocks[sb]["term"]
+        if st["k"] != "switch":
+            continue
+        v = du.val_operand(st["discr"])
+        if not pat.search(repr(v)):
+            continue
+        for tb in set([b for _, b in st["targets"]] + [st["otherwise"]]):
+            if cfg.edge_dominates((sb, tb), site.bid) and len(set([b for _, b in st["targets"]] + [st["otherwise"]])) > 1:
+                return True
+    return False
 
 
 def recursion_rule(ctx, chk, prop, rule_name, seen):
